@@ -219,6 +219,9 @@ class Program(object):
                 return str(value)
             if isinstance(value, six.string_types):
                 return quote(value)
+            elif isinstance(value, float) and "e" in repr(value) and "." not in repr(value):
+                # The parser only reads numbers with a decimal point as decimals: 1e-05 is written 1.0e-05
+                return repr(value).replace("e", ".0e")
             else:
                 return str(value)
 
